@@ -993,6 +993,19 @@ class KernelAnalysis:
             if o.w == ANY:
                 return Val('fam', f.w, reads, f.factors, posvar=f.posvar, length=f.length)
             # family + single coefficient broadcast along d: only weight-0 scalars (x_data - const) are not homogeneous
+            lit = None
+            if isinstance(node, ast.BinOp):
+                for side in (node.left, node.right):
+                    c_ = side.operand if isinstance(side, ast.UnaryOp) and isinstance(side.op, (ast.USub, ast.UAdd)) else side
+                    if isinstance(c_, ast.Constant) and isinstance(c_.value, (int, float, complex)) and not isinstance(c_.value, bool) and c_.value != 0:
+                        lit = side
+            if lit is not None and not o.reads and f.posvar is not None and f.posvar in f.w.vars():
+                # a numeric literal added to the whole coefficient array: plain broadcasting puts it into every coefficient,
+                # it belongs to coefficient 0 only (the `_plus_const` slip)
+                self.obligations += 1
+                self.issue('O3', 'VIOLATION', node, 'the constant `%s` (weight 0) is added to every coefficient of a family whose weights differ: `%s` - '
+                                                    'a constant belongs to coefficient 0 only' % (norm(lit), norm(node)[:80]))
+                return Val('fam', f.w, reads, f.factors, posvar=f.posvar, length=f.length)
             return Val.bot('family combined additively with a single coefficient: ' + norm(node)[:60], reads)
         # both single weights (explicit factors are kept: every summation variable is unique to its term)
         facs = a.factors + b.factors
